@@ -12,6 +12,14 @@ import (
 	"verifharness/cv"
 )
 
+// 2^58+1 (count-1)*32 = 2^63 wraps; 2^62; 2^63-32 and 2^63-1: position + value wraps
+var int64Band = func() []*big.Int {
+	p := func(k uint, d int64) *big.Int {
+		return new(big.Int).Add(new(big.Int).Lsh(big.NewInt(1), k), big.NewInt(d))
+	}
+	return []*big.Int{p(58, 1), p(62, 0), p(63, -32), p(63, -1)}
+}()
+
 func allOnes() []byte {
 	b := make([]byte, 32)
 	for i := range b {
@@ -158,6 +166,13 @@ func (d *driver) directed(r *cv.Rand) {
 				for _, v := range vals {
 					if v >= 0 {
 						d.addDec(t, replaceWord(e.b, m.Pos, big.NewInt(int64(v))), 0, "directed:"+m.Role.String()+"-flip")
+					}
+				}
+				// words a 64-bit int still holds but whose use overflows it (count*32, position+length,
+				// head start+offset): refused today because they have more than 32 bits
+				if hi == 2 {
+					for _, v := range int64Band {
+						d.addDec(t, replaceWord(e.b, m.Pos, v), 0, "directed:int64-band")
 					}
 				}
 			}
